@@ -74,15 +74,16 @@ def run_generic(pid, profile, tier, seed, domains=None, extra_domains=(), n_quic
                 nontriv.add(json.dumps(h["steps"], sort_keys=True))
         ck.cov["directed_family"] = {"name": fam.__name__, "histories": nf, "domains": rdoms}
     if pid == "C16":    # directed family: copies and originals receiving the same operations
-        nf = 300 if tier == "quick" else 1500
+        nf = 300 if tier == "quick" else 1000
+        tdoms = [d for d in doms if hist.exact_projection(d.split("#")[0])]     # the twin judgement needs a faithful projection
         for off in range(0, nf, 500):
             hs = [hist.twin_history(ck.rng, 700000 + off + i, params=ck.rng.choice(PARAMS)) for i in range(min(500, nf - off))]
-            fails, knowns, _ = domops.run_batch(ck, "twin%d" % off, hs, doms, box=box, univ=univ, timeout=3000)
+            fails, knowns, _ = domops.run_batch(ck, "twin%d" % off, hs, tdoms, box=box, univ=univ, timeout=3000)
             allf += fails
             allk += knowns
             for h in hs:
                 nontriv.add(json.dumps(h["steps"], sort_keys=True))
-        ck.cov["directed_family"] = {"name": "twin_history", "histories": nf, "domains": doms}
+        ck.cov["directed_family"] = {"name": "twin_history", "histories": nf, "domains": tdoms}
     if pid == "C04":    # second directed family: inclusion between values of the disjunctive domains
         ddoms = [d for d in doms if d in ("pow_int", "pow_sdbm", "dis_intervals", "vp_int", "term_dis_int", "ric", "congruences", "intervals")]
         nf = 200 if tier == "quick" else 1500
